@@ -133,6 +133,7 @@ def coverage(agg, tier, roots_):
                                "choice_points": int(agg.stats.get("ctrl_choice_points", 0)),
                                "deviation_bound": 2 if tier == "quick" else 3,
                                "scripted_answers_used": {k[5:]: int(agg.stats[k]) for k in ctrl.SITE_KEYS if agg.stats.get(k)},
-                               "real_traces_replayed_through_skeleton": ok, "taped_interactions": inter}
+                               "real_traces_replayed_through_skeleton": ok, "taped_interactions": inter,
+                               "answer_classes_witnessed_in_real_runs": getattr(ctrl.conformance_suite, "witnessed", {})}
     herr += [f"conformance replay failed for {t}: {m}" for t, m in fails]
     return cov, herr
